@@ -54,7 +54,17 @@ def match_known(pid, viol, known):
             continue
         if not viol['label'].startswith(k.get('label_prefix', '')):
             continue
-        if all(viol.get('info', {}).get(a) == b for a, b in k.get('match', {}).items()):
+        info = viol.get('info', {}) or {}
+
+        def holds(a, b):
+            if a == '@same_multiset':   # b = [key1, key2]: the two lists in the counterexample's info are permutations of each other
+                try:
+                    x, y = info.get(b[0]), info.get(b[1])
+                    return isinstance(x, list) and isinstance(y, list) and x != y and sorted(map(json.dumps, x)) == sorted(map(json.dumps, y))
+                except Exception:
+                    return False
+            return info.get(a) == b
+        if all(holds(a, b) for a, b in k.get('match', {}).items()):
             return k
     return None
 
